@@ -24,7 +24,8 @@ PROP = {
     ],
     "runs": LOOP_RUNS,
     "keys": ["timer-*", "closed-timer-revived", "schedule-while-scheduled-accepted", "scheduled-flag-wrong"],
-    "secondary_keys": ["timer-never-fired-although-due", "timer-early", "timer-callback-after-cancel-or-close", "closed-timer-revived"],
+    "secondary_keys": ["timer-never-fired-although-due", "timer-early", "timer-callback-after-cancel-or-close", "closed-timer-revived", "scheduled-flag-wrong",
+                       "schedule-while-scheduled-accepted"],
     "rule": LOOP_RULE + "; timers use ticks of 12 ms, the harness compares the monotonic clock at the scheduling call with the clock at "
                         "callback entry (early=true is a violation) and waits out every armed one-shot timer in the drain phase",
     "trusted_base": LOOP_TB,
